@@ -322,12 +322,20 @@ def handleCall (j : Json) : Except String Json := do
   | none => pure ()
   -- `ArrayConstraintBuilder` phase 0: a random-size list of objects cannot grow beyond the objects it holds
   -- (block `array_sz_c`, appended after every other constraint of the call)
+  -- The cap is added only when the size bound inferred from the statements of the call (first bounds pass, Python
+  -- integers) leaves room above the number of objects held: `if len(f.field_l) < max_size`.
+  let initDoms : Array Bounds.RL := fields.map fun f => match f.enums with
+    | some es => Bounds.initEnum es
+    | none => Bounds.initScalar f.ty.w f.ty.s
+  let bst0 := Bounds.process (envΓ fields) (envρ (fields.map (·.val))) initDoms (tops.map btopOf)
   for p in usedS do
     if forced p.1 && p.2 then
       match inst.scalars[p.1]? with
       | some si =>
         let cap := (si.decl.getObjVal? "cap").toOption.bind (·.getNat?.toOption) |>.getD 0
-        tops := tops ++ [Stmt.expr (.bin .le (.fld p.1) (.lit (cap : Int) false 32))]
+        let maxSize : Int := match (bst0.doms.getD p.1 []).getLast? with | some r => r.2 | none => 0
+        if (cap : Int) < maxSize then
+          tops := tops ++ [Stmt.expr (.bin .le (.fld p.1) (.lit (cap : Int) false 32))]
       | none => pure ()
   let recs ← getA j "rec"
   let limit := (getN j "enumLimit").toOption.getD 13
